@@ -6,6 +6,7 @@ package props
 // configurations, fault histories and application scripts.
 
 import (
+	kcp "github.com/xtaci/kcp-go/v5"
 	"testing"
 
 	"pgregory.net/rapid"
@@ -65,6 +66,65 @@ func TestC01Core(t *testing.T) {
 			d := describeCore(cfg, fs, app)
 			d["stats"] = st
 			rec.Sample(d)
+		}
+	})
+}
+
+func TestC01Session(t *testing.T) {
+	rec := hx.NewRecorder(t)
+	rapid.Check(t, func(rt *rapid.T) {
+		cfg := drawPairCfg(rt, pairGenOpts{})
+		fs := sim.DrawFateScript(rt, c01FateOpts)
+		app := drawSessApps(rt, pairMSS(cfg), 30, 150_000)
+		var d snmpDelta
+		var dup, smallReads int
+		completed := false
+		rapid.SyncTest(rt, func(rt *rapid.T) {
+			before := kcp.DefaultSnmp.Copy()
+			s := sim.NewSessSim(cfg.ClockOff, cfg.EntropySeed)
+			p, err := sim.NewPair(s, cfg, app)
+			if err != nil {
+				rt.Fatalf("setup: %v", err)
+			}
+			setPairLinks(s, p, fs)
+			err = p.Run(fs.EndTime()+600_000, false)
+			completed = p.Complete()
+			smallReads = p.SmallReads()
+			dup = s.Duplicated
+			p.Finish(nil)
+			d = snmpSince(before)
+			if err != nil {
+				rt.Fatalf("C01 (session): %v\ncase: %+v", err, describePair(cfg, fs, app))
+			}
+		})
+		cl := []string{"cipher_" + cfg.Cipher}
+		if cfg.FEC[0][0] > 0 {
+			cl = append(cl, "fec_on")
+			if d.FECRecovered > 0 {
+				cl = append(cl, "fec_recovery_used")
+			}
+		}
+		if cfg.Listener {
+			cl = append(cl, "via_listener")
+		}
+		if d.Retrans > 0 {
+			cl = append(cl, "retransmission")
+		}
+		if dup > 0 {
+			cl = append(cl, "duplicate_delivered")
+		}
+		if smallReads > 0 {
+			cl = append(cl, "read_smaller_than_message")
+		}
+		if completed {
+			cl = append(cl, "completed")
+		}
+		nontrivial := d.Retrans > 0 && (dup > 0 || d.FECRecovered > 0 || smallReads > 0 || d.Repeat > 0)
+		rec.Case(hx.Hash64(describePair(cfg, fs, app)), nontrivial, cl...)
+		if rec.WantSample() {
+			dd := describePair(cfg, fs, app)
+			dd["snmp_delta"] = d
+			rec.Sample(dd)
 		}
 	})
 }
